@@ -429,6 +429,9 @@ func (c *Catalog) AddType(
 	case notation.SchemaNotationRegex:
 		s, _ := coreUserTypes.Get(name)
 		es := newExchangeRegexSchema(s.(*regex.RSchema))
+		if err := es.Validate(); err != nil {
+			return d.BodyError(err.Error())
+		}
 		userType.Schema = es
 	case notation.SchemaNotationAny, notation.SchemaNotationEmpty:
 		userType.Schema = NewExchangePseudoSchema(typeNotation)
